@@ -33,6 +33,12 @@ type BitrotScenario struct {
 	// muxed
 	Period int     `json:"period,omitempty"`
 	Ops    []MuxOp `json:"ops,omitempty"`
+	// muxed, with a writer that fails once: WFault enumerates every Write call of the history as
+	// the failing one (FailOne >= 0 after narrowing: only that call); the tables emitted by later
+	// successful calls are judged
+	WFault  bool `json:"wfault,omitempty"`
+	FailOne int  `json:"fail_one,omitempty"` // 0 = enumerate, k>0 = only Write call k-1
+	Short   int  `json:"short,omitempty"`
 }
 
 type bitrot struct{}
@@ -98,6 +104,40 @@ func (bitrot) Generate(r *core.PRNG, tier string, idx int64) any {
 		}
 		if r.Bool() {
 			sc.Ops = append(sc.Ops, MuxOp{Op: "remove", H: 0}, MuxOp{Op: "tables", H: -1})
+		}
+		if r.Chance(1, 3) {
+			// a writer that fails once somewhere in a history of small units and table emissions
+			sc.WFault = true
+			sc.Short = r.Range(0, 2)
+			sc.Period = r.Range(1, 3)
+			var ops []MuxOp
+			tag := 1
+			for _, op := range sc.Ops {
+				ops = append(ops, op)
+				if op.Op == "tables" {
+					nd := r.Range(1, 3)
+					for k := 0; k < nd; k++ {
+						ps := PESSpec{StreamID: 0xe0}
+						d := MuxOp{Op: "data", H: 0, PES: &ps, Len: genLen(r, ps.HeaderSize(), 0, false), Tag: tag}
+						if r.Bool() {
+							d.Len = r.Range(1, 150)
+						}
+						if r.Chance(1, 4) {
+							d.AF = &refts.AF{RAI: true}
+						}
+						tag++
+						ops = append(ops, d)
+					}
+					ops = append(ops, MuxOp{Op: "tables", H: -1})
+				}
+			}
+			for i := range ops {
+				if ops[i].Op == "remove" {
+					ops = ops[:i] // stream 0 carries the data
+					break
+				}
+			}
+			sc.Ops = ops
 		}
 		return sc
 	}
@@ -460,6 +500,9 @@ func rotMuxed(sc *BitrotScenario, out *core.Outcome) {
 	o.Log = out.Log
 	ms := NewMuxSim(sc.Period, world.WriterPlan{}, o, false)
 	ms.Run(sc.Ops)
+	if sc.WFault {
+		rotMuxedFaults(sc, out, len(ms.W.Calls))
+	}
 	kinds := map[string]bool{}
 	for _, op := range sc.Ops {
 		for _, d := range op.Descs {
@@ -524,12 +567,90 @@ func rotMuxed(sc *BitrotScenario, out *core.Outcome) {
 	}
 }
 
+// rotMuxedFaults re-runs the history once per Write call with that call failing once. The bytes
+// of every later call that succeeded are whole packets written by that call alone; its PAT/PMT
+// packets must carry one well-formed section each, like any other the Muxer emits.
+func rotMuxedFaults(sc *BitrotScenario, out *core.Outcome, total int) {
+	one := func(j int) {
+		o := core.NewOutcome()
+		o.Log = out.Log
+		out.Log.Add("fault", "writer-once", j, sc.Short)
+		ms := NewMuxSim(sc.Period, world.WriterPlan{HasFault: true, FailCall: j, Short: sc.Short}, o, false)
+		ms.Faulty = true
+		pre := len(out.Violations)
+		failed := false
+		for i := range sc.Ops {
+			before := ms.W.Faults
+			rec := ms.Step(i, &sc.Ops[i])
+			if ms.W.Faults != before {
+				failed = true
+				out.Fire("writer-fault-once")
+				continue
+			}
+			if !failed || rec.Err != nil || rec.Skipped {
+				continue
+			}
+			b := ms.W.Buf[rec.Off0:rec.Off1]
+			if len(b) == 0 || len(b)%188 != 0 {
+				continue
+			}
+			pk, _ := refts.SplitPackets(b)
+			for k, raw := range pk {
+				p := refts.DecodeLenient(raw)
+				if p == nil || raw[0] != 0x47 || !p.HasPayload() || !p.PUSI {
+					continue
+				}
+				what := ""
+				switch {
+				case p.PID == 0:
+					what = "PAT"
+				case ms.avoidPID >= 0 && int(p.PID) == ms.avoidPID:
+					what = "PMT"
+				default:
+					continue
+				}
+				out.Evals++
+				out.Probe("table-after-writer-fault")
+				secs, err := refts.Frame(p.Payload)
+				switch {
+				case err != nil || len(secs) != 1:
+					out.Violate("C09", "muxed-section-framing", what+"-after-writer-fault", "Write call %d failed once; call %d (%s) later succeeded and its packet %d (%s) does not frame to one section (err=%v, sections=%d)", j, i, sc.Ops[i].Op, k, what, err, len(secs))
+				case !secs[0].Complete:
+					out.Violate("C09", "muxed-section-length", what+"-after-writer-fault", "Write call %d failed once; call %d (%s) later succeeded and its %s announces more bytes than the packet holds", j, i, sc.Ops[i].Op, what)
+				case !secs[0].CRCOK:
+					out.Violate("C09", "muxed-section-crc", what+"-after-writer-fault", "Write call %d failed once; call %d (%s) later succeeded and its %s has a CRC_32 the reference decoder rejects", j, i, sc.Ops[i].Op, what)
+				}
+			}
+		}
+		if len(out.Violations) > pre {
+			nsc := *sc
+			nsc.FailOne = j + 1
+			out.Narrow(pre, &nsc)
+		}
+	}
+	if sc.FailOne > 0 {
+		one(sc.FailOne - 1)
+		return
+	}
+	for j := 0; j < total; j++ {
+		one(j)
+	}
+}
+
 func (bitrot) Shrink(scAny any) []any {
 	sc := scAny.(*BitrotScenario)
 	var out []any
 	if sc.Mode == "muxed" {
 		for _, ops := range shrinkOps(sc.Ops) {
-			out = append(out, &BitrotScenario{Mode: "muxed", Period: sc.Period, Ops: ops})
+			out = append(out, &BitrotScenario{Mode: "muxed", Period: sc.Period, Ops: ops, WFault: sc.WFault, FailOne: sc.FailOne, Short: sc.Short})
+			if sc.FailOne > 1 {
+				// dropping an operation in front of the failing Write moves it
+				for _, d := range []int{1, 2, 4, 8} {
+					if sc.FailOne-d >= 1 {
+						out = append(out, &BitrotScenario{Mode: "muxed", Period: sc.Period, Ops: ops, WFault: true, FailOne: sc.FailOne - d, Short: sc.Short})
+					}
+				}
+			}
 		}
 		// drop single descriptors
 		for i, op := range sc.Ops {
@@ -538,7 +659,7 @@ func (bitrot) Shrink(scAny any) []any {
 				o := c[i]
 				o.Descs = append(append([]DescSpec{}, op.Descs[:k]...), op.Descs[k+1:]...)
 				c[i] = o
-				out = append(out, &BitrotScenario{Mode: "muxed", Period: sc.Period, Ops: c})
+				out = append(out, &BitrotScenario{Mode: "muxed", Period: sc.Period, Ops: c, WFault: sc.WFault, FailOne: sc.FailOne, Short: sc.Short})
 			}
 			for k, d := range op.Descs {
 				if d.N > 0 {
@@ -547,7 +668,7 @@ func (bitrot) Shrink(scAny any) []any {
 					o.Descs = append([]DescSpec{}, op.Descs...)
 					o.Descs[k].N = d.N - 1
 					c[i] = o
-					out = append(out, &BitrotScenario{Mode: "muxed", Period: sc.Period, Ops: c})
+					out = append(out, &BitrotScenario{Mode: "muxed", Period: sc.Period, Ops: c, WFault: sc.WFault, FailOne: sc.FailOne, Short: sc.Short})
 				}
 			}
 		}
